@@ -265,7 +265,7 @@ func TestVerifC14(t *testing.T) {
 func c14Synthetic(t *testing.T) {
 	const check = "C14.synthetic"
 	res := verifrt.NewResult(check)
-	res.Rule = "crash texts: random bytes; structured tracebacks from a grammar (0-3 goroutines in any status, the running one first/later/absent, 0-200 frames with arbitrary symbol/argument/file text incl. sigpanic look-alikes, frames without pc=, created-by lines, sentinel relocated by 0/4KiB/huge/wrapping deltas, PCs = genuine function PCs of this binary, 0, 1, 2^64-1) and metamorphic variants differing only in non-PC text (messages, multi-line tab-indented messages quoting goroutine dumps, arguments, paths, other symbols not equal to runtime.sigpanic, other goroutines, extra sentinel lines after the first, removed/garbled sentinel). Oracle: terminates within the tick budget without panic; result is an error, the fixed no-running-goroutine name, or crash/crash + <= 16 physical frames, <= 4096 bytes; equals EncodeStack of the harness's own relocated PC list; variants give the same name or an error; canary tokens placed in every text position never occur in the name. distinct = distinct report texts; non-trivial = report has a running goroutine with >= 1 PC"
+	res.Rule = "crash texts: random bytes; structured tracebacks from a grammar (0-3 goroutines in any status, the running one first/later/absent, 0-200 frames with arbitrary symbol/argument/file text incl. sigpanic look-alikes, frames without pc=, created-by lines, sentinel relocated by 0/4KiB/huge/wrapping deltas, PCs = genuine function PCs of this binary, 0, 1, 2^64-1) and metamorphic variants differing only in non-PC text (messages, multi-line tab-indented messages quoting goroutine dumps, file paths containing ' pc=0x...' text, arguments, paths, other symbols not equal to runtime.sigpanic, other goroutines, extra sentinel lines after the first, removed/garbled sentinel). Oracle: terminates within the tick budget without panic; result is an error, the fixed no-running-goroutine name, or crash/crash + <= 16 physical frames, <= 4096 bytes; equals EncodeStack of the harness's own relocated PC list; variants give the same name or an error; canary tokens placed in every text position never occur in the name. distinct = distinct report texts; non-trivial = report has a running goroutine with >= 1 PC"
 	n := verifrt.Scale(12000, 1000000)
 	for i := 0; i < n; i++ {
 		if !verifrt.WantCase(check, i) {
@@ -352,11 +352,18 @@ func c14Synthetic(t *testing.T) {
 				vr.Mid = []string{"panic: completely different " + canary + "Z text", "fatal error: all goroutines are asleep", ""}
 			case 1:
 				kind = "args-and-files"
+				// (some paths contain text that looks like the pc field itself)
+				other := pcB(2)
+				shapes := []string{"C:/Users/" + canary + "Z/y.go:7", fmt.Sprintf("/home/u/my pc=%#x work/%sZ.go:7", uint64(other[0]), canary), "/src/a pc=zz/" + canary + "Z.go:9", fmt.Sprintf("/w/sp=0x1 fp=0x2 pc=%#x/q.go:1", uint64(other[1]))}
+				shape := rnd.Intn(len(shapes))
+				if shape > 0 {
+					kind = "files-with-pc-text"
+				}
 				for gi := range vr.Gs {
 					fs := append([]synFrame(nil), vr.Gs[gi].Frames...)
 					for fi := range fs {
 						fs[fi].Args = "0xdeadbeef, " + canary + "Z"
-						fs[fi].File = "C:/Users/" + canary + "Z/y.go:7"
+						fs[fi].File = shapes[shape]
 					}
 					vr.Gs[gi].Frames = fs
 				}
@@ -413,7 +420,7 @@ func c14Synthetic(t *testing.T) {
 			res.Sample(map[string]any{"case": i, "report_head": fmt.Sprintf("%.400s", text), "name": trunc(name), "err": fmt.Sprint(err)})
 		}
 	}
-	res.Require("named", "error", "no-running-goroutine", "more-than-16-frames", "truncated-name", "variant:message", "variant:multiline-message", "variant:extra-sentinel-later", "variant:other-symbols")
+	res.Require("named", "error", "no-running-goroutine", "more-than-16-frames", "truncated-name", "variant:message", "variant:files-with-pc-text", "variant:multiline-message", "variant:extra-sentinel-later", "variant:other-symbols")
 	if err := res.Write(); err != nil {
 		t.Fatal(err)
 	}
